@@ -29,6 +29,18 @@ def f_fail5(x):
     return ('f', x)
 
 
+def f_ident(x):
+    # exception objects travelling as ordinary elements come back as ordinary results
+    return x
+
+
+def f_errval(x):
+    # *returns* (does not raise) an exception object for some elements
+    if khash(x) % 3 == 0:
+        return ValueError('as-value', khash(x) % 1000)
+    return x
+
+
 def p_even(x):
     return khash(x) % 2 == 0
 
@@ -63,7 +75,7 @@ def materialize(kv):
     return (kv[0], list(kv[1]))
 
 
-FUNCS = {f.__name__: f for f in (f_tag, f_tag_kw, f_fail5, p_even, p_mod3_kw, p_fail7, k_mod2, k_mod3_kw, acc, acc_kw)}
+FUNCS = {f.__name__: f for f in (f_tag, f_tag_kw, f_fail5, f_ident, f_errval, p_even, p_mod3_kw, p_fail7, k_mod2, k_mod3_kw, acc, acc_kw)}
 
 EXC = {'Boom': Boom, 'Exception': Exception, 'ValueError': ValueError, 'LookupError': LookupError, 'KeyError': KeyError, None: None}
 
@@ -237,6 +249,7 @@ def alphabet(n):
         ['buffer', 1], ['buffer', 3],
         ['parmap', 'f_tag', 1, False, False], ['parmap', 'f_fail5', 2, False, True], ['parmap', 'f_fail5', 2, True, False],
         ['parmap', 'f_tag_kw', 2, True, True, {'suffix': 'q'}],
+        ['parmap', 'f_ident', 2, False, False], ['parmap', 'f_errval', 2, False, False], ['parmap', 'f_errval', 1, True, True], ['map', 'f_errval'],
         ['shuffle', 2],
     ]
     return ops
